@@ -117,7 +117,7 @@ def gen_model(rng, which):
         from machines import part
         c = part.gen_combo(rng, {}, which.split('-')[1])
         return {'kind': which.split('-')[1], 'ops': c['ops'], 'pool': c['pool'], 'tol': 2e-5,
-                'dvars': [('y', c['d']), ('t', c['d'])], 'rvars': [('z', c['n'])],
+                'dvars': [('y', c['d']), ('t', c['d'])], 'rvars': [(an, hi - lo) for an, lo, hi in c['arrays']],
                 'robust': ['cy0', 'ct0'], 'det_cons': [], 'ambs': ['F'] if which == 'combo-dro' else [],
                 'labels': c['labels'], 'S': c['S'], 'p': c['p']}
     if which == 'prog':
